@@ -29,6 +29,8 @@ type c06Gen struct {
 	recvSeq map[string]uint64 // next fresh sequence per source chain
 	commits map[string][]uint64
 	ackSeq  map[string]uint64
+	pf      string // " pf=<hex>" appended to the next recv / ack for a chain other than S ("" = none)
+	forceRl *string
 }
 
 func (g *c06Gen) pick(l []string) string { return l[g.r.Rng.Intn(len(l))] }
@@ -186,6 +188,115 @@ func (g *c06Gen) genMultichain() {
 	}
 }
 
+// the proof bytes the next message carries for a chain that is not S: explicit (directed step) or, for TSS
+// chains, one of the five kinds at random in a third of the messages
+func (g *c06Gen) proofField(chain, raw string) string {
+	if chain == c06S {
+		return ""
+	}
+	if g.pf != "" {
+		return g.pf
+	}
+	t, isTss := g.tss[chain]
+	if !isTss || g.r.Rng.Intn(3) > 0 {
+		return ""
+	}
+	return " pf=" + g.proofKind(g.r.Rng.Intn(5), t, raw)
+}
+
+// (a) empty (b) garbage (c) exactly the configured TSS address string (d) another account's address (e) the signer's own address
+func (g *c06Gen) proofKind(k int, tssAddr, raw string) string {
+	switch k {
+	case 0:
+		return "-"
+	case 1:
+		return hx([]byte{0xde, 0xad, 0xbe, 0xef, byte(g.r.Rng.Intn(256))})
+	case 2:
+		return hxs(tssAddr)
+	case 3:
+		for i := 0; i < 20; i++ {
+			if a := c06Accts[g.r.Rng.Intn(c06NAcct)]; !c06SameAccount(a.lower, tssAddr) && !c06SameAccount(a.lower, raw) {
+				return hxs(a.lower)
+			}
+		}
+		return hxs(c06Accts[0].lower)
+	}
+	return hxs(raw)
+}
+
+// a committed sequence towards dst whose EVM callbacks succeed, at the head of the queue
+func (g *c06Gen) okCommit(dst string) {
+	for len(g.commits[dst]) > 0 && !c06EvmOK(g.commits[dst][0]) {
+		g.commits[dst] = g.commits[dst][1:]
+	}
+	for len(g.commits[dst]) == 0 {
+		g.ackSeq[dst]++
+		seq := g.ackSeq[dst]
+		g.run(fmt.Sprintf("mkcommit %s %s %d", hxs(c06T), hxs(dst), seq))
+		if c06EvmOK(seq) {
+			g.commits[dst] = append(g.commits[dst], seq)
+		}
+	}
+}
+
+// TSS-secured chain: receives and acknowledgements whose own proof field is empty / garbage / the TSS address /
+// another address / the signer's address — from the TSS account, from a registered relayer that is not the
+// TSS account, from an unregistered account. Everything else is valid, so the signer is the only obstacle.
+func (g *c06Gen) genTssProofs() {
+	r := g.r
+	var cands []string
+	for _, c := range []string{"tss-a", "tss-b", "tss-up"} {
+		if _, ok := g.tss[c]; ok {
+			cands = append(cands, c)
+		}
+	}
+	if len(cands) == 0 {
+		return
+	}
+	c := cands[r.Rng.Intn(len(cands))]
+	t := g.tss[c]
+	regOp := func(addr string, oaddr string) {
+		g.run(fmt.Sprintf("reg 1 %s 1 %s 1 %s", hxs(addr), hxs(c), hxs(oaddr)))
+	}
+	payout := "0xfee0000000000000000000000000000000000003"
+	regOp(t, payout)
+	var other, unreg *c06Acct
+	off := r.Rng.Intn(c06NAcct)
+	for i := range c06Accts {
+		a := &c06Accts[(i+off)%c06NAcct]
+		if c06SameAccount(a.lower, t) {
+			continue
+		}
+		_, r1 := g.w.lastReg[a.lower]
+		_, r2 := g.w.lastReg[a.upper]
+		if unreg == nil && !r1 && !r2 {
+			unreg = a // never registered, in no spelling
+		} else if other == nil {
+			other = a // becomes a registered relayer of this chain below
+		}
+	}
+	signers := [][2]string{{t, strings.ToLower(t)}}
+	if other != nil {
+		regOp(other.lower, "relayer-X")
+		signers = append(signers, [2]string{other.lower, other.lower})
+	}
+	if unreg != nil {
+		signers = append(signers, [2]string{unreg.lower, unreg.lower})
+	}
+	g.forceRl = &payout
+	defer func() { g.forceRl, g.pf = nil, "" }()
+	for _, k := range r.Rng.Perm(5) {
+		for _, si := range r.Rng.Perm(len(signers)) {
+			sg := signers[si]
+			g.pf = " pf=" + g.proofKind(k, t, sg[0])
+			g.genRecv(sg[0], sg[1], c, true)
+			g.okCommit(c)
+			g.pf = " pf=" + g.proofKind(k, t, sg[0])
+			g.genAck(sg[0], sg[1], c, true)
+		}
+	}
+}
+
 func c06B(b bool) string {
 	if b {
 		return "1"
@@ -222,7 +333,7 @@ func (g *c06Gen) genRecv(raw, canon, src string, valid bool) string {
 	if src != c06S && g.r.Rng.Intn(2) == 0 {
 		proofOK = !proofOK // ignored for TSS / absent clients
 	}
-	out := g.run(fmt.Sprintf("recv %s %s %s %s %d %s %s", hxs(raw), hxs(canon), hxs(src), hxs(dst), seq, c06B(hasData), c06B(proofOK)))
+	out := g.run(fmt.Sprintf("recv %s %s %s %s %d %s %s", hxs(raw), hxs(canon), hxs(src), hxs(dst), seq, c06B(hasData), c06B(proofOK)) + g.proofField(src, raw))
 	if strings.HasPrefix(out, "ok") && seq == g.recvSeq[src]+1 {
 		g.recvSeq[src] = seq
 	}
@@ -241,6 +352,9 @@ func (g *c06Gen) genAck(raw, canon, dst string, valid bool) string {
 	seq := g.commits[dst][0]
 	genuine, proofOK, dec := true, true, true
 	rl := g.pick(c06OtherAddrs)
+	if g.forceRl != nil {
+		rl = *g.forceRl
+	}
 	if dst == c06S {
 		rl = c06PoolAckRelayer(seq)
 	}
@@ -273,8 +387,9 @@ func (g *c06Gen) genAck(raw, canon, dst string, valid bool) string {
 		proofOK = !proofOK
 	}
 	out := g.run(fmt.Sprintf("ack %s %s %s %s %d %s %s %s %s %s %s", hxs(raw), hxs(canon), hxs(src), hxs(dst), seq, c06B(hasData),
-		c06B(genuine), c06B(proofOK), hxs(rl), c06B(dec), c06B(c06EvmOK(seq))))
-	if strings.HasPrefix(out, "ok") && len(g.commits[dst]) > 0 && seq == g.commits[dst][0] {
+		c06B(genuine), c06B(proofOK), hxs(rl), c06B(dec), c06B(c06EvmOK(seq))) + g.proofField(dst, raw))
+	if len(g.commits[dst]) > 0 && seq == g.commits[dst][0] && (strings.HasPrefix(out, "ok") || (valid && !c06EvmOK(seq))) {
+		// acknowledged — or a sequence whose EVM callbacks can never succeed: do not get stuck on it
 		g.commits[dst] = g.commits[dst][1:]
 	}
 	return out
@@ -321,6 +436,9 @@ func (g *c06Gen) history(steps int, sweep bool) {
 	}
 	if r.Rng.Intn(2) == 0 {
 		g.genMultichain()
+	}
+	if r.Rng.Intn(3) == 0 {
+		g.genTssProofs()
 	}
 	for i := 0; i < steps; i++ {
 		if r.Rng.Intn(40) == 0 {
